@@ -198,11 +198,11 @@ type mMate struct {
 }
 
 type mUnit struct {
-	Iface   mIface
-	Variant mVariant
-	Mate    *mMate
-	Pkg     string // package name and directory under gen/
-	GenErr  string // generation failed (not a verdict of C03–C05)
+	Iface    mIface
+	Variant  mVariant
+	Mate     *mMate
+	Pkg      string // package name and directory under gen/
+	GenErr   string // generation failed (not a verdict of C03–C05)
 	BuildErr string
 }
 
@@ -299,7 +299,7 @@ func mPrepare(c *core.Ctx) {
 				cfg.Set("template-data", td)
 			}
 		}
-		cfg.Sub("packages").Sub(mMod + "/corpus").Sub("interfaces").Set(u.Iface.Name, ic)
+		cfg.Sub("packages").Sub(mMod+"/corpus").Sub("interfaces").Set(u.Iface.Name, ic)
 		if u.Mate != nil {
 			mc := world.NewY()
 			if len(u.Mate.Opts) > 0 {
@@ -309,7 +309,7 @@ func mPrepare(c *core.Ctx) {
 				}
 				mc.Sub("config").Set("template-data", td)
 			}
-			cfg.Sub("packages").Sub(mMod + "/corpus").Sub("interfaces").Set(u.Mate.Iface.Name, mc)
+			cfg.Sub("packages").Sub(mMod+"/corpus").Sub("interfaces").Set(u.Mate.Iface.Name, mc)
 		}
 		cfgPath := filepath.Join(e.dir, "cfg-"+u.Pkg+".yml")
 		os.WriteFile(cfgPath, []byte(cfg.String()), 0o644)
@@ -438,26 +438,26 @@ func mRunDriver(c *core.Ctx, in msim.Input, id string) (*msim.Output, string) {
 }
 
 type mSpec struct {
-	quickN, thoroughN  int
-	quickS, thoroughS  int
-	level              string
-	rule               string
-	assumptions        []string
-	summary            string
+	quickN, thoroughN int
+	quickS, thoroughS int
+	level             string
+	rule              string
+	assumptions       []string
+	summary           string
 }
 
 var mSpecs = map[string]mSpec{
-	"C04": {quickN: 1200000, thoroughN: 30000000, quickS: 120, thoroughS: 1500, level: "exploration",
-		rule:    "one evaluation = one seeded history (1–26 operations: calls with unique-token arguments incl. nil/zero/empty values, Calls() reads, per-method and global resets, swapping the Func field between echo / nil / panicking) executed on a freshly constructed, freshly generated and instrumented matryer mock inside the simulator (single task); non-trivial = ≥2 operations; distinct = hash(mock, operation list)",
-		summary: "list model held",
+	"C04": {quickN: 1200000, thoroughN: 30000000, quickS: 1200, thoroughS: 1500, level: "exploration",
+		rule:        "one evaluation = one seeded history (1–26 operations: calls with unique-token arguments incl. nil/zero/empty values, Calls() reads, per-method and global resets, swapping the Func field between echo / nil / panicking) executed on a freshly constructed, freshly generated and instrumented matryer mock inside the simulator (single task); non-trivial = ≥2 operations; distinct = hash(mock, operation list)",
+		summary:     "list model held",
 		assumptions: []string{"values are compared by fingerprint: deep for values, identity for pointers/maps/chans, behaviour for funcs", "whether a call on a nil Func without stub-impl is recorded is left unconstrained (the statement does not say)"}},
-	"C05": {quickN: 240000, thoroughN: 12000000, quickS: 170, thoroughS: 1500, level: "exploration",
-		rule:    "one evaluation = one simulated run: 2–4 tasks × 2–6 operations on one shared mock under one seeded schedule (uniform random, PCT with ≤3 priority change points, or round-robin with random preemption) at the granularity of generated statements and lock operations; faults: a task whose Func panics mid-run, nil Funcs under stub-impl, testify calls without expectation (FailNow unwinds the operation); non-trivial = ≥2 tasks touched one method and a task was preempted or blocked; distinct = hash(mock, operations, lock acquisition order, choice list)",
-		summary: "no race, linearizable, conserved, live",
-		assumptions: []string{"interleavings are at the granularity of generated statements and lock operations; word tearing inside one statement is out of reach (the happens-before detector compensates for unsynchronised accesses)", "testify's own mutex stays real: tasks never park inside testify"}},
-	"C03": {quickN: 600000, thoroughN: 20000000, quickS: 120, thoroughS: 1500, level: "exploration",
-		rule:    "one evaluation = one seeded history of expectation registrations (Return / Run+Return / RunAndReturn / per-result providers / whole-signature provider / none; Once/Twice/Times/Maybe; exact or Anything matchers), calls (matching, unmatched, nil/zero/empty and variadic arguments) and cleanup on a freshly generated testify mock; non-trivial = ≥2 operations; distinct = hash(mock, operation list)",
-		summary: "reference model held",
+	"C05": {quickN: 240000, thoroughN: 12000000, quickS: 1200, thoroughS: 1500, level: "exploration",
+		rule:        "one evaluation = one simulated run: 2–4 tasks × 2–6 operations on one shared mock under one seeded schedule (uniform random, PCT with ≤3 priority change points, or round-robin with random preemption) at the granularity of generated statements and lock operations; faults: a task whose Func panics mid-run, nil Funcs under stub-impl, testify calls without expectation (FailNow unwinds the operation); non-trivial = ≥2 tasks touched one method and a task was preempted or blocked; distinct = hash(mock, operations, lock acquisition order, choice list)",
+		summary:     "no race, linearizable, conserved, live",
+		assumptions: []string{"interleavings are at the granularity of generated statements and lock operations; word tearing inside one statement is out of reach (the happens-before detector compensates for unsynchronised accesses)", "testify's own mutex stays real and tasks never park inside testify; for the race detector every call from generated code into testify is a critical section on one modelled mutex that touches the state testify owns, and a field of mock.Mock / mock.Call that generated code reads or writes directly is an access to that state without the mutex"}},
+	"C03": {quickN: 600000, thoroughN: 20000000, quickS: 1200, thoroughS: 1500, level: "exploration",
+		rule:        "one evaluation = one seeded history of expectation registrations (Return / Run+Return / RunAndReturn / per-result providers / whole-signature provider / none; Once/Twice/Times/Maybe; exact or Anything matchers), calls (matching, unmatched, nil/zero/empty and variadic arguments) and cleanup on a freshly generated testify mock; non-trivial = ≥2 operations; distinct = hash(mock, operation list)",
+		summary:     "reference model held",
 		assumptions: []string{"histories stay inside documented testify behaviour: at most one live expectation matches a call, or identical ones differ only by Once/Times and are consumed in registration order", "func-typed parameters are always registered with mock.Anything (testify refuses func arguments in On)"}},
 }
 
